@@ -245,7 +245,7 @@ def rule_site_templates(ctx: Ctx, rule: str) -> None:
                     check_text(ctx, rule, key, repo.loc('_wcparse', node), v, inst(r'[S]+', SEP[var]), [],
                                'runs of separators in the path count as one; `a/b` must not match `ab`')
                     m += 1
-    ctx.floor(rule, 'separator-run emissions x variants', m, 8)
+    ctx.floor(rule, 'separator-run emissions x variants', m, 4)
 
 
 def rule_handle_dot_inline(ctx: Ctx, rule: str) -> None:
